@@ -26,7 +26,7 @@ theorem fallback_spec (fuel pos : Nat) (k : FbKind) (h : List Cond) (inner : Lay
       | none => none
       | some (res, r1) =>
         if isFailure h res.outcome then
-          if r1.cancelled then some (timeoutResult, r1.emit "fb.onFailure" pos)
+          if r1.isCanc then some (r1.cancelRes, r1.emit "fb.onFailure" pos)
           else
             let ok := !isFailure h (fbOutcome k)
             some (⟨(fbOutcome k).val, (fbOutcome k).err, true, ok, ok⟩,
@@ -40,9 +40,10 @@ theorem fallback_spec (fuel pos : Nat) (k : FbKind) (h : List Cond) (inner : Lay
     simp only
     by_cases hf : isFailure h res.outcome = true
     · simp only [hf, if_true]
-      have hc : (r1.emit "fb.onFailure" pos).cancelled = r1.cancelled := rfl
-      rw [hc]
-      by_cases hcan : r1.cancelled = true
+      have hc : (r1.emit "fb.onFailure" pos).isCanc = r1.isCanc := rfl
+      have hc2 : (r1.emit "fb.onFailure" pos).cancelRes = r1.cancelRes := rfl
+      rw [hc, hc2]
+      by_cases hcan : r1.isCanc = true
       · simp [hcan]
       · simp only [hcan]
         cases k <;> simp [fbOutcome]
@@ -52,18 +53,18 @@ theorem fallback_spec (fuel pos : Nat) (k : FbKind) (h : List Cond) (inner : Lay
 theorem fallback_applied_iff (fuel pos : Nat) (k : FbKind) (h : List Cond) (inner : Layer) (r : Run)
     (res : PR) (r1 : Run) (hi : inner r = some (res, r1)) (res' : PR) (r' : Run)
     (ho : applyPolicy fuel pos (.fallback k h) inner r = some (res', r')) :
-    (applications pos r'.log = applications pos r1.log + 1 ↔ (isFailure h res.outcome = true ∧ r1.cancelled = false)) ∧
-    (¬ (isFailure h res.outcome = true ∧ r1.cancelled = false) → applications pos r'.log = applications pos r1.log) := by
+    (applications pos r'.log = applications pos r1.log + 1 ↔ (isFailure h res.outcome = true ∧ r1.isCanc = false)) ∧
+    (¬ (isFailure h res.outcome = true ∧ r1.isCanc = false) → applications pos r'.log = applications pos r1.log) := by
   rw [fallback_spec, hi] at ho
   simp only at ho
   by_cases hf : isFailure h res.outcome = true
-  · by_cases hcan : r1.cancelled = true
+  · by_cases hcan : r1.isCanc = true
     · simp only [hf, hcan, if_true, Option.some.injEq, Prod.mk.injEq] at ho
       obtain ⟨_, rfl⟩ := ho
       simp [applications, Run.emit, Run.emitSeen, List.filter_append, hf, hcan]
     · simp only [hf, hcan, if_true, Option.some.injEq, Prod.mk.injEq] at ho
       obtain ⟨_, rfl⟩ := ho
-      have hcan' : r1.cancelled = false := by simpa using hcan
+      have hcan' : r1.isCanc = false := by simpa using hcan
       simp [applications, Run.emit, Run.emitSeen, List.filter_append, hf, hcan']
   · simp only [hf, Option.some.injEq, Prod.mk.injEq] at ho
     obtain ⟨_, rfl⟩ := ho
@@ -72,7 +73,7 @@ theorem fallback_applied_iff (fuel pos : Nat) (k : FbKind) (h : List Cond) (inne
 /-- the fallback's output replaces the result and is itself classified by the same conditions; the overall verdict is reset
 to that classification -/
 theorem fallback_output_reclassified (fuel pos : Nat) (k : FbKind) (h : List Cond) (inner : Layer) (r : Run)
-    (res : PR) (r1 : Run) (hi : inner r = some (res, r1)) (hf : isFailure h res.outcome = true) (hc : r1.cancelled = false) :
+    (res : PR) (r1 : Run) (hi : inner r = some (res, r1)) (hf : isFailure h res.outcome = true) (hc : r1.isCanc = false) :
     ∃ r', applyPolicy fuel pos (.fallback k h) inner r =
       some (⟨(fbOutcome k).val, (fbOutcome k).err, true, !isFailure h (fbOutcome k), !isFailure h (fbOutcome k)⟩, r') := by
   rw [fallback_spec, hi]
@@ -89,15 +90,15 @@ theorem unhandled_passthrough (fuel pos : Nat) (k : FbKind) (h : List Cond) (inn
 
 /-- under cancellation the fallback's output is never produced: the cancellation result is returned -/
 theorem no_fallback_output_under_cancel (fuel pos : Nat) (k : FbKind) (h : List Cond) (inner : Layer) (r : Run)
-    (res : PR) (r1 : Run) (hi : inner r = some (res, r1)) (hf : isFailure h res.outcome = true) (hc : r1.cancelled = true) :
-    ∃ r', applyPolicy fuel pos (.fallback k h) inner r = some (timeoutResult, r') ∧ applications pos r'.log = applications pos r1.log := by
+    (res : PR) (r1 : Run) (hi : inner r = some (res, r1)) (hf : isFailure h res.outcome = true) (hc : r1.isCanc = true) :
+    ∃ r', applyPolicy fuel pos (.fallback k h) inner r = some (r1.cancelRes, r') ∧ applications pos r'.log = applications pos r1.log := by
   rw [fallback_spec, hi]
   simp [hf, hc, applications, Run.emit, List.filter_append]
 
 /-- **the fallback function sees the failed result and error as the execution's last result**: the event of the fallback
 function carries exactly the inner layer's outcome (including `ExceededError`, `ErrOpen`, `ErrFull`, rate-limit and timeout errors) -/
 theorem fallback_sees_failed_outcome (fuel pos : Nat) (k : FbKind) (h : List Cond) (inner : Layer) (r : Run)
-    (res : PR) (r1 : Run) (hi : inner r = some (res, r1)) (hf : isFailure h res.outcome = true) (hc : r1.cancelled = false)
+    (res : PR) (r1 : Run) (hi : inner r = some (res, r1)) (hf : isFailure h res.outcome = true) (hc : r1.isCanc = false)
     (res' : PR) (r' : Run) (ho : applyPolicy fuel pos (.fallback k h) inner r = some (res', r')) :
     (⟨"fb.fn", pos, r1.attempts, r1.execs, some res.outcome⟩ : Event) ∈ r'.log := by
   rw [fallback_spec, hi] at ho
